@@ -241,6 +241,20 @@ def _cat() -> List[Edit]:
         E("C02", "promoted-table-loses-int-float", "predicates.py", "_PROMOTED_TYPES = {float: (int,), complex: (float, int)}", "_PROMOTED_TYPES = {complex: (float, int)}", "BREAK", "promoted-types::int->float"),
         E("C02", "promoted-table-extra", "predicates.py", "_PROMOTED_TYPES = {float: (int,), complex: (float, int)}", "_PROMOTED_TYPES = {float: (int,), complex: (float, int), int: (float,)}", "BREAK", "promoted-types::no-extra"),
         E("C02", "keep-runtime-flag-guard-form", "predicates.py", "                if self.runtime_check:\n                    return _non_instances(value, self.pattern_value)\n                return None", "                if not self.runtime_check:\n                    return None\n                return _non_instances(value, self.pattern_value)", "KEEP"),
+        E("C13", "coro-wrap-only-annotated", "arg_spec.py", "                has_return_annotation = True\n            if is_async:\n                returns = make_coro_type(returns)", "                has_return_annotation = True\n                if is_async:\n                    returns = make_coro_type(returns)", "BREAK", "from_signature::coroutine-wrap"),
+        E("C13", "def-route-wrap-only-annotated", "functions.py", "        if not visitor.is_generator:\n            result = make_coro_type(result)", "        if not visitor.is_generator and info.return_annotation is not None:\n            result = make_coro_type(result)", "BREAK", "compute_value_of_function::coroutine-wrap"),
+        E("C13", "forwardref-cache-read", "annotations.py", "        with ctx.add_evaluation(val):\n", "        with ctx.add_evaluation(val):\n            if getattr(val, \"__forward_evaluated__\", False):\n                return _type_from_runtime(val.__forward_value__, ctx, is_typeddict=is_typeddict)\n", "BREAK", "reads-typing-forwardref-cache"),
+        E("C15", "upper-bound-skipped-on-bottom", "typevar.py", "        elif isinstance(bound, UpperBound):\n            if top is TOP or top.is_assignable(bound.value, ctx):", "        elif isinstance(bound, UpperBound):\n            if bottom is not BOTTOM and bound.value.is_assignable(bottom, ctx):\n                continue\n            if top is TOP or top.is_assignable(bound.value, ctx):", "BREAK", "UpperBound::unchanged-top"),
+        E("C15", "lower-bound-skipped-on-top", "typevar.py", "            if bottom is BOTTOM or bound.value.is_assignable(bottom, ctx):\n                # New bound is more specific. Adopt it.", "            if top is not TOP and top.is_assignable(bound.value, ctx):\n                continue\n            if bottom is BOTTOM or bound.value.is_assignable(bottom, ctx):\n                # New bound is more specific. Adopt it.", "BREAK", "LowerBound::unchanged-bottom"),
+        E("C15", "keep-upper-arm-nested-form", "typevar.py", "            elif bound.value.is_assignable(top, ctx):\n                pass\n            else:\n                top = unite_values(top, bound.value)", "            elif not bound.value.is_assignable(top, ctx):\n                top = unite_values(top, bound.value)", "KEEP"),
+        E("C19", "index-range-abs", "implementation.py", "                        if -len(members) <= key.val < len(members):", "                        if abs(key.val) < len(members):", "BREAK", "in-range-test"),
+        E("C19", "index-range-off-by-one-top", "implementation.py", "                        if -len(members) <= key.val < len(members):", "                        if -len(members) <= key.val <= len(members):", "BREAK", "in-range-test"),
+        E("C19", "keep-index-range-split-form", "implementation.py", "                        if -len(members) <= key.val < len(members):", "                        if key.val < len(members) and key.val >= -len(members):", "KEEP"),
+        E("C19", "memoised-perform", "name_check_visitor.py", "                    result = callee_wrapped.val(\n                        *[arg.val for arg in arg_values],\n                        **{key: value.val for key, value in kw_values},\n                    )", "                    result = _MEMO.get((callee_wrapped.val, tuple(arg.val for arg in arg_values)))", "BREAK", "performed"),
+        E("C20", "version-truncated", "type_evaluation.py", "                    left_operand = sys.version_info\n", "                    left_operand = sys.version_info[:2]\n", "BREAK", "operand-for-sys.version_info"),
+        E("C20", "keep-version-tuple-call", "type_evaluation.py", "                    left_operand = sys.version_info\n", "                    left_operand = tuple(sys.version_info)\n", "KEEP"),
+        E("C20", "varmaps-union-of-keys", "type_evaluation.py", "    keys = set.intersection(*[set(m) for m in varmaps])", "    keys = set().union(*varmaps)", "BREAK", "absent-is-not-never"),
+        E("C20", "keep-varmaps-intersection-loop", "type_evaluation.py", "    keys = set.intersection(*[set(m) for m in varmaps])", "    keys = set(varmaps[0])\n    for m in varmaps[1:]:\n        keys &= set(m)", "KEEP"),
         E("C16", "keep-reversed-sorted", "node_visitor.py", "lines_to_remove = sorted(lines_to_remove, reverse=True)", "lines_to_remove = list(reversed(sorted(lines_to_remove)))", "KEEP"),
         E("C17", "keep-regex-class-order", "format_strings.py", "(?P<conversion_type>[diouxXeEfFgGcrs%ba])", "(?P<conversion_type>[abcdeEfFgGiorsuxX%])", "KEEP"),
         E("C18", "keep-sort-key-via-locals", "options.py", "        return (\n            not self.from_command_line,  # command line options first\n            self.priority,  # lower priority number first\n            -len(self.applicable_to),  # longest options first\n        )", "        return (\n            not self.from_command_line,\n            self.priority,\n            -len(self.applicable_to),\n        )", "KEEP"),
